@@ -4,6 +4,28 @@ import json, os
 ROOT = os.path.dirname(os.path.abspath(__file__))
 
 CLAIMED = {
+ 'C14': dict(
+    category='other',
+    text='Symbolic execution of mk_component / mk_class / mk_*_association on a real BridgePoint model with ONE edit applied per path and a metamorphic oracle '
+         'written from the statement: the component built from the edited model must equal the baseline signature (classes with ordered typed attributes, '
+         'identifiers, associations with key lists, multiplicity+conditionality per end and phrases) transformed by the same edit. Edits: Mult and Cond of every '
+         'R_FORM / R_PART / R_AONE / R_AOTH as SYMBOLIC integers, phrases of the reflexive linked association as SYMBOLIC strings, rename of every attribute, retype '
+         'of every base attribute to 7 data types (core / user-defined / enumeration) with referential attributes following, swap of attributes in the R103 chain, '
+         'identifier membership; whole model vs named component vs build_component, with derived attributes, three row orders of the model text; the unedited '
+         'result is also compared with a reviewed expected signature of the fixture, and the SQL schema persisted for the component must load back to the same definitions.',
+    design_ref='DESIGN.md section 5, C14',
+    note='one fixture model (fixtures/Simple_Model.xtuml), edit scripts of length 1; model text parsed outside the tracer; class synthesis from abstract diagrams not covered.',
+    technique='bounded symbolic execution of the real code (CrossHair + z3); Mult/Cond/phrases symbolic-through, metamorphic oracle'),
+ 'C20': dict(
+    category='other',
+    text='Symbolic execution of gen_xsd_schema.build_schema on a real BridgePoint model with one edit per path and a metamorphic oracle on the returned element '
+         'tree: rename of every attribute to a SYMBOLIC name, retype of every base attribute to 9 data types (referential attributes follow, user types unwound to '
+         'their base, unsupported types omitted), append / swap / rename of enumerators along R56, new user-defined types on 4 kinds of base, moving each class out of '
+         'the component, making an attribute derived; the unedited declarations are compared with a reviewed expectation and the realised tree must survive '
+         'ET.tostring / ET.fromstring / prettify (well-formed XML).',
+    design_ref='DESIGN.md section 5, C20',
+    note='one fixture model, edit scripts of length 1; attribute order inside an element is not constrained; model text parsed outside the tracer.',
+    technique='bounded symbolic execution of the real code (CrossHair + z3); names symbolic-through, metamorphic oracle'),
  'C15': dict(
     category='other',
     text='Symbolic execution of the real call machinery (mk_component -> mk_function / mk_operation / mk_external_entity / mk_derived_attribute, run_function / '
